@@ -89,6 +89,20 @@ def matchLen (keys : List (List Char)) (inp : List Char) : Nat :=
 
 /-! ### `_extract_string` in general: multi-character delimiter, raw strings -/
 
+/-- `escaped_delimiter` -/
+def escapedDelimG (c : Cfg) (delim : List Char) (p : Char) : Bool :=
+  [p] == delim || (delim.length > 1 && delim.head? == some p && c.isQuote p)
+
+/-- the condition of the escape branch, any delimiter, raw or not -/
+def escCondG (c : Cfg) (delim : List Char) (raw rawEsc : Bool) (cur p : Char) : Bool :=
+  (rawEsc || !raw) && c.isEsc cur && (escapedDelimG c delim p || c.isEsc p || validCustom c cur p)
+    && (!c.isQuote cur || cur == p)
+
+/-- what the escape branch appends -/
+def escOutG (c : Cfg) (delim : List Char) (raw : Bool) (cur p : Char) : List Char :=
+  if escapedDelimG c delim p then (if raw then [cur, p] else [p])
+  else if validCustom c cur p && cur != p then [p] else [cur, p]
+
 /-- `scanG c delim raw rawEsc cur rest acc` — the `while True:` loop; `delim` has at least one character -/
 def scanG (c : Cfg) (delim : List Char) (raw rawEsc : Bool) : Char → List Char → List Char → R
   | cur, [], acc =>
@@ -101,14 +115,10 @@ def scanG (c : Cfg) (delim : List Char) (raw rawEsc : Bool) : Char → List Char
       | [] => .err
       | n :: rest' => scanG c delim raw rawEsc n rest' (acc ++ [u])
     | none =>
-      let escapedDelim := [p] == delim || (delim.length > 1 && delim.head? == some p && c.isQuote p)
-      if (rawEsc || !raw) && c.isEsc cur && (escapedDelim || c.isEsc p || validCustom c cur p)
-          && (!c.isQuote cur || cur == p) then
-        let out := if escapedDelim then (if raw then [cur, p] else [p])
-                   else if validCustom c cur p && cur != p then [p] else [cur, p]
+      if escCondG c delim raw rawEsc cur p then
         match rest with
         | [] => .err
-        | n :: rest' => scanG c delim raw rawEsc n rest' (acc ++ out)
+        | n :: rest' => scanG c delim raw rawEsc n rest' (acc ++ escOutG c delim raw cur p)
       else if delim.isPrefixOf (cur :: p :: rest) then .ok acc ((p :: rest).drop (delim.length - 1))
       else scanG c delim raw rawEsc p rest (acc ++ [cur])
 
